@@ -261,7 +261,7 @@ for y, mo, d, h, mi, s, ms in [(2024,1,15,12,0,0,0),(2024,7,15,12,30,15,123),(20
     text = F['datetimeISOFormat']([dt], None)
     back = F['datetimeISOParse']([text], None)
     # a wall-clock time that does not exist or is ambiguous in the zone is outside the claim ("every datetime that exists")
-    exists = datetime.datetime.fromtimestamp(dt.timestamp()) == dt
+    exists = dt.astimezone().astimezone(datetime.timezone.utc).astimezone().replace(tzinfo=None) == dt      # integer arithmetic only (no float timestamps)
     if exists and back != dt:
         bad.append((repr(dt), text, repr(back)))
 from bare_script import parse_expression, evaluate_expression
